@@ -201,8 +201,12 @@ def loop_argument(P, f, head, body, summaries):
     cands = _candidates(f, body)
     mod = sorted(cursorw._modified(f, body))
     st0 = sym.State()
+    utypes = {l["ref"]["name"] for l in list(f.locals) + list(f.params)
+              if (l.get("t") or {}).get("k") in ("int", "bool") and (l.get("t") or {}).get("signed") is False}
     for v in mod:
         st0.env[v] = ({v + "@h": 1}, 0)
+        if v in utypes:
+            st0.cons.append((((v + "@h", 1),), 0))       # a value of unsigned type is not negative at the head either
     forms = []
     for bid, c, a, b_ in cands:
         la, lb = w.lin(a, st0), w.lin(b_, st0)          # registers atoms
@@ -328,6 +332,33 @@ def loop_argument(P, f, head, body, summaries):
                         "not negative on any of the %d ways into the loop and stays so, and every iteration passes the test `%s`, " \
                         "which leaves the loop when it reaches 0" % (L.show(r), len(backs2), len(ins), pp(c)[:40])
         why = "no comparison of the loop yields a quantity that falls on every path round it (%d paths, %d candidates)" % (len(backs), len(forms))
+    # --- modular step: `do { ..; x--; } while (x % K != 0)`: x moves by exactly one per cycle and the loop is left when x
+    # reaches a multiple of K, which any K consecutive values contain (also across the unsigned wrap)
+    for mb in sorted(body):
+        tb = f.blocks[mb]
+        mc = sk(tb.term["cond"]) if tb.term and tb.term.get("cond") is not None and len(tb.succs) == 2 else None
+        if mc is None or mc.get("k") != "Bin" or mc["op"] not in ("==", "!=") or cval(sk(mc["a"][1])) != 0:
+            continue
+        m = sk(mc["a"][0])
+        if m.get("k") != "Bin" or m["op"] != "%" or (cval(sk(m["a"][1])) or 0) < 1 or sk(m["a"][0]).get("k") != "Ref":
+            continue
+        exit_edge = tb.succs[0] if mc["op"] == "==" else tb.succs[1]
+        if exit_edge is None or exit_edge in body or not _on_every_cycle(f, head, body, mb):
+            continue
+        xk = pp(sk(m["a"][0]))
+        steps = []
+        for bid in body:
+            for e in f.blocks[bid].elems:
+                for x in ir.walk(e):
+                    if x.get("k") == "Un" and x["op"] in cursorw.INCDEC and pp(sk(x["a"][0])) == xk:
+                        steps.append((bid, 1 if "++" in x["op"] else -1))
+                    elif x.get("k") == "Bin" and x["op"] in ASSIGN_OPS and pp(sk(x["a"][0])) == xk:
+                        steps.append((bid, None))
+        if len({(b_, d_) for b_, d_ in steps}) == 1 and steps[0][1] is not None and _on_every_cycle(f, head, body, steps[0][0]):
+            inner = [b2 for h2, b2 in fieldinv._loops(f).items() if h2 != head and h2 in body]
+            if not any(steps[0][0] in b2 for b2 in inner):
+                return "modular step", "%s moves by one on every cycle and the loop is left when %s %% %d == 0: at most %d iterations" % (
+                    xk, xk, cval(sk(m["a"][1])), cval(sk(m["a"][1])))
     # --- modular countdown: `while (x) { y--; if (y % K == 0) x--; }` with x unsigned: at most K * x iterations
     if backs:
         for bid, c, a, b_ in cands:
@@ -622,7 +653,23 @@ def invariant_nonneg_at(P, f, node, form, summaries=None):
     loops = fieldinv._loops(f)
     cands = [(len(body), h, body) for h, body in loops.items() if loc[0] in body]
     if not cands:
-        return False
+        # not inside a loop: walk there from the entry (loops on the way are generalised with the bounds their own
+        # comparisons give, lockstep relations included) and ask at the site
+        at0 = []
+        target0 = f.blocks[loc[0]].elems[loc[1]]
+
+        class W0(TW):
+            def on_elem(self2, b, e, st):
+                if e is target0:
+                    rr = cursorw._ev(form, st)
+                    at0.append(rr is not None and self2.implied(st, rr))
+                TW.on_elem(self2, b, e, st)
+        w0 = W0(P, f, summaries if summaries is not None else {})
+        try:
+            w0._walk(f.entry, sym.State(), frozenset(), [], None)
+        except AnalysisBroken:
+            return False
+        return bool(at0) and all(at0)
     _, head, body = min(cands)
     mod = sorted(cursorw._modified(f, body))
     st0 = sym.State()
